@@ -309,6 +309,20 @@ def run_case(case):
     def add(kind, msg, mech, **kw):
         viol.append(dict({'kind': kind, 'mech': mech, 'msg': '%s; pipeline %s' % (msg, gen.render(prog, 1200)),
                           'pipeline': prog}, **kw))
+    # second use: a first pipeline is built from the specification objects and run; the pipelines examined below are
+    # then built from the SAME objects (a step must neither depend on nor corrupt its caller's arguments)
+    if boot.rng(case['seed'], 'C02', 'reuse', case['idx']).random() < 0.25:
+        with lab.arg_reuse('record'):
+            first_use = lab.run(mk(dsl.Env('r')))
+        if first_use.ok:
+            mk_fresh = mk
+
+            def mk(e):
+                with lab.arg_reuse('replay'):
+                    return mk_fresh(e)
+            label = (label or 'program') + '/second_use'
+            cov['op_x_type']['second_use_of_the_same_specification_objects'] = 1
+            counters['second_use_cases'] = 1
     # plain run (raw) and probed run
     plain = lab.run(mk(dsl.Env('a')))
     log = probes.Log()
